@@ -1018,6 +1018,16 @@ func mechSkeleton(ops []Op) string {
 }
 
 func runC01M(run *Run) {
+	if bad := c01LineIndependence(); len(bad) > 0 {
+		for i, b := range bad {
+			if i >= 5 {
+				break
+			}
+			line := "X fault-line-depends-on-the-left-neighbour => " + strings.ReplaceAll(strings.ReplaceAll(b, "\n", "\\n"), " ", "_")
+			run.Failures = append(run.Failures, Failure{CaseIdx: -9100 - i, Kind: "CRASH", Line: line, Reply: line, Lines: []string{line}})
+		}
+		run.Extra["fault_line_groups_in_disagreement"] = len(bad)
+	}
 	thorough := run.Tier == "thorough"
 	run.Rule = "TESTS (labelled): (a) bytecode equality real compiler vs Lean compile model, word for word incl. constants and NumUsedRegisters: " +
 		"bounded-exhaustive condition trees (depth<=2 over a rich alphabet incl. relational operators, depth<=3 over {l0,g0,true,nil,1} x {not,and,or}) x 12 contexts " +
